@@ -1178,7 +1178,7 @@ pub fn run(a: &Args) {
             hex(crate::walcov::SRC_CHECKPOINT_MAGIC.as_bytes()), crate::walcov::SRC_CHECKPOINT_VERSION, crate::walcov::SRC_CHECKPOINT_HEADER_SIZE);
         out.op("FMT".into(), c);
     }
-    // known finding (must reproduce until the fix lands): the checkpoint of the EMPTY state (76 bytes) cut
+    // repaired defect (fix: 7df179c; the corpus case must PASS now — the oracle is unconditional): the checkpoint of the EMPTY state (76 bytes) cut
     // right after its 48-byte header, inside the length field and inside the data section — open() accepts
     // each, load() must not panic
     {
